@@ -352,6 +352,18 @@ impl Broker {
         }
     }
 
+    /// 4 = PUBACK / PUBREC / PUBCOMP owed with success, 2 = SUBACK / UNSUBACK, 0 = anything else.
+    pub fn ack_form_choices(&self, e: &Emit) -> usize {
+        match e {
+            Emit::Owed(i) => match self.owed[*i] {
+                Owed::Ack { kind: AckKind::PubAck | AckKind::PubRec | AckKind::PubComp, reason: 0, .. } => 4,
+                Owed::SubAck { .. } | Owed::UnsubAck { .. } => 2,
+                _ => 0,
+            },
+            _ => 0,
+        }
+    }
+
     pub fn is_pubrel(&self, e: &Emit) -> bool {
         match e {
             Emit::Owed(i) => matches!(self.owed[*i], Owed::Ack { kind: AckKind::PubRel, reason: 0, .. }),
@@ -446,6 +458,15 @@ pub fn connack_extras(code: u8) -> Vec<Prop> {
         6 => vec![s(0x1A, "resp/"), s(0x1C, "other.example:1883")],
         _ => vec![],
     }
+}
+
+/// Properties a broker may attach to any acknowledgement.
+pub fn ack_dressing() -> Vec<Prop> {
+    vec![
+        Prop { id: 0x1F, val: PVal::Str(b"fine".to_vec()) },
+        Prop { id: 0x26, val: PVal::Pair(b"k".to_vec(), b"1".to_vec()) },
+        Prop { id: 0x26, val: PVal::Pair(b"k".to_vec(), b"2".to_vec()) },
+    ]
 }
 
 pub fn connack_props(
